@@ -901,6 +901,11 @@ class Interp:
             for p_, par in inspect.signature(fn).parameters.items():
                 if p_ == 'result':
                     kwargs[p_] = v
+                elif p_.startswith('any_int_'):
+                    # a generic integer: the assertion is proved for an arbitrary value (universal
+                    # generalisation; unlike a quantifier it may feed sequence terms and reductions)
+                    from .values import fresh_int as _fi, VInt as _VI
+                    kwargs[p_] = _VI(_fi(p_))
                 else:
                     try:
                         kwargs[p_] = env.lookup(p_)
